@@ -41,6 +41,8 @@ def replay_case(mod, part_name: str, case) -> "dict | None":
         check = part["check"]
     rec = Recorder(mod.ID, check)
     rec.counting = False
+    if part.get("watchdog"):
+        rec.watchdog_s, rec.timeout_violation = part["watchdog"]
     try:
         rec(case)
     except Violation:
